@@ -22,14 +22,14 @@ Require Import V.Oracle.C07Oracle.
 Require Import V.Proofs.C07OracleProofs.
 Open Scope Z_scope.
 
-(* every configuration reachable under any schedule (inside the position window) satisfies the invariant *)
+(* every configuration reachable under any schedule (positions below 2^62) satisfies the invariant *)
 Theorem C07_reachable : forall lo m c0 c, Inv lo c0 -> reach lo m c0 c -> Inv lo c.
 Proof. exact reach_inv. Qed.
 Print Assumptions C07_reachable.
 
 (* the threads may be started on any ring a sequential run left behind *)
 Theorem C07_initial : forall R limits progs,
-  wf R -> Forall (Forall wreq_ok) progs -> 0 <= r_hc R <= two61 -> r_tail R + 2 * r_cap R <= r_hc R + two30 ->
+  wf R -> Forall (Forall wreq_ok) progs -> r_tail R + 2 * r_cap R <= two62 ->
   Inv (r_hc R) (start R limits progs).
 Proof. exact inv_start. Qed.
 Print Assumptions C07_initial.
@@ -112,10 +112,9 @@ Example C07_example_reachable : Inv 232 ex_c0 /\ reach 232 Debug ex_c0 ex_c3 /\ 
   map p_pc (g_prods ex_c3) = [PPadHdr 232 24] /\ r_tail (g_ring ex_c3) = 288.
 Proof. split; [| split; [| split; [| split]]].
   - change (Inv (r_hc (init 256 232 232 0)) (start (init 256 232 232 0) [] [[(1, payload 0 24)]])). apply inv_start.
-    + apply wf_init; [exists 8; split; [lia | reflexivity] | lia | reflexivity | unfold two31; lia].
+    + apply wf_init; [exists 8; split; [lia | reflexivity] | lia | reflexivity].
     + constructor; [constructor; [right; reflexivity | constructor] | constructor].
-    + cbn. unfold two61. lia.
-    + cbn. unfold two30. lia.
+    + cbn. unfold two62. lia.
   - assert (E : replay_ok 232 Debug ex_c0 [1; 1; 1]%nat = Some ex_c3) by (vm_compute; reflexivity).
     exact (replay_reach _ _ _ _ _ _ E (reach_refl _ _ _)).
   - right. vm_compute. reflexivity.
